@@ -255,7 +255,11 @@ def rule_shortcircuit(ctx, p: Project):
         ok = len(loops) == 1 and norm_text(loops[0].iter).replace(" ", "") in ("zip(self.cls_list_from(cls=cls),preload_dict.values())", "zip(self.cls_list_from(cls=cls),preload_dict.values(),)")
         if ok:
             tv = loops[0].target
-            ok = isinstance(tv, ast.Tuple) and len(tv.elts) == 2 and len(loops[0].body) == 1 and norm_text(loops[0].body[0]) == f"cls_dict[{norm_text(tv.elts[0])}] = {norm_text(tv.elts[1])}"
+            b0 = loops[0].body[0] if len(loops[0].body) == 1 else None
+            # D[<object>] = <value> for whatever dict D is returned
+            ok = isinstance(tv, ast.Tuple) and len(tv.elts) == 2 and isinstance(b0, ast.Assign) and isinstance(b0.targets[0], ast.Subscript) and isinstance(b0.targets[0].value, ast.Name) \
+                and norm_text(b0.targets[0].slice) == norm_text(tv.elts[0]) and norm_text(b0.value) == norm_text(tv.elts[1]) \
+                and [norm_text(r_.value) for r_ in wire.returns_of(h)] == [b0.targets[0].value.id]
         if not ok:
             rets_h = wire.returns_of(h)
             ok = len(rets_h) == 1 and not loops and norm_text(rets_h[0].value).replace(" ", "") in ("dict(zip(self.cls_list_from(cls=cls),preload_dict.values()))",)   # the same pairing in one expression
